@@ -246,10 +246,17 @@ def main():
         if r % 5 == 4:
             dt = -dt            # descending axes are axes too
         start = float(rng.uniform(-20, 20)) if rng.rand() < 0.7 else 0.0
+        # frequency axes need not be centred at zero, and the mappings are
+        # also requested while an energy-units context is active
+        fstart = float(rng.uniform(0.3, 3.0)) if r % 3 == 1 else 0.0
+        units = ("int", "1/cm", "eV", "int")[r % 4]
         for atype in ("complete", "upper-half"):
-            rp = dict(kind="axis", N=N, dt=dt, start=start, atype=atype)
-            with ck.guarded("axis-round-trip", atype, rp, rp):
-                ta = TimeAxis(start, N, dt, atype=atype)
+            rp = dict(kind="axis", N=N, dt=dt, start=start, atype=atype,
+                      frequency_start=fstart, units=units)
+            with ck.guarded("axis-round-trip", atype, rp, rp), \
+                    qr.energy_units(units):
+                ta = TimeAxis(start, N, dt, atype=atype,
+                              frequency_start=fstart)
                 fa = ta.get_FrequencyAxis()
                 tb = fa.get_TimeAxis()
                 sc = max(1.0, abs(start) + N * abs(dt))
